@@ -1,5 +1,5 @@
 PROP = {
-    "groups": ["protocol", "e2e-faults"],
+    "groups": ["protocol", "file-script", "e2e-faults"],
     "timeout": 900,
     "rule": "protocol: the real recvFileMD5 / sendFileMD5 / checkInteger on scripted lines (digests equal, one byte larger or smaller, shorter, longer, random) against the model comparisons; e2e-faults: byte-level faults on the connection between the real client (filter) and the real trz/tsz child: bit flip, deletion, duplication, insertion, truncation of the tail at offsets sampled uniformly over the recorded fault-free wire of either direction (phases trigger/ACT/CFG/NUM/NAME/SIZE/DATA/payload/SUCC/MD5/EXIT), for configurations over direction x base64/binary x protocol field absent/2/3/4 x overwrite x escape; oracle: any side reporting success implies destination = source; non-trivial = the fault changed the outcome (no success); distinct = distinct (fault, configuration)",
     "trusted": ["modelled, not verified: MD5 (abstract function H; unforged-digest and collision-freeness on the compared pair are premises), zstd/zlib/base64 decoding (abstract decode), line framing (C03) and escape coding (C04) are separate theorems"],
